@@ -72,6 +72,11 @@ def handle (toks : List String) : String :=
     match o.toInt?, parseFloatMat? d with
     | some o, some d => fmtNatList (paretoFront (Float.ofInt o) (d.map fun r => r.map optNan))
     | _, _ => "bad-op"
+  | ["paretoneg", o, d] =>
+    -- the right-hand side of `paretoFront_orientation_neg`: orientation `o` on the negated data
+    match o.toInt?, parseFloatMat? d with
+    | some o, some d => fmtNatList (paretoFront (Float.ofInt o) (negRows (d.map fun r => r.map optNan)))
+    | _, _ => "bad-op"
   | ["pct", p, s] =>
     match floatTok? p, parseFloatList? s with
     | some p, some s =>
